@@ -344,6 +344,12 @@ pub enum GenMode {
 /// upper- or lower-cased), a combining mark and an upper-case ASCII letter.
 const UTF8_SAMPLES: [&str; 16] = ["a", "é", "€", "😀", "ß", "z", "İ", "Ⱥ", "Ⱦ", "ŉ", "ΐ", "ﬁ", "ẞ", "K", "\u{301}", "Q"];
 
+/// Strings that code handling relying-party ids, names, icons and type identifiers might treat
+/// specially (separators, schemes, empty labels, NUL, whitespace, case variants).
+pub const SPECIAL_TEXTS: [&str; 24] = [
+    ".", "..", "a.", ".a", "example.com.", "localhost", "xn--", " ", "\0", "\n", "data:", "data:image/png;base64,AA==", "https://", "http://a", "/", "%00", "public-key", "Public-Key", "public-key\0", "packed", "none", "*", "a@b", "\u{feff}",
+];
+
 /// Text of exactly `n` bytes made of 1..4-byte characters (n >= 0).
 pub fn utf8_text(rng: &mut Rng, n: usize) -> Vec<u8> {
     let mut out = Vec::with_capacity(n);
@@ -389,11 +395,11 @@ fn lattice_uint(rng: &mut Rng, max: u64) -> u64 {
 pub fn cose_ecdh(rng: &mut Rng, mode: GenMode) -> V {
     let (x, y) = match mode {
         GenMode::Min => (vec![], vec![]),
-        GenMode::Max => (rng.bytes(32), rng.bytes(32)),
+        GenMode::Max => (rng.content(32), rng.content(32)),
         GenMode::Random => {
             let a = lattice_len(rng, 32);
             let b = lattice_len(rng, 32);
-            (rng.bytes(a), rng.bytes(b))
+            (rng.content(a), rng.content(b))
         }
     };
     let mut m = vec![(int(1), int(2))];
@@ -428,7 +434,7 @@ pub fn gen_ty(ty: &Ty, rng: &mut Rng, mode: GenMode) -> V {
                     },
                 }
             };
-            V::B(rng.bytes(n))
+            V::B(rng.content(n))
         }
         Ty::Text { max, lossy, fixed } => {
             if let Some(f) = fixed {
@@ -436,6 +442,9 @@ pub fn gen_ty(ty: &Ty, rng: &mut Rng, mode: GenMode) -> V {
                 if mode != GenMode::Random || rng.chance(7, 8) {
                     return t(f);
                 }
+            }
+            if mode == GenMode::Random && rng.chance(1, 8) {
+                return t(*rng.pick(&SPECIAL_TEXTS));
             }
             let n = match mode {
                 GenMode::Min => 0,
